@@ -391,6 +391,9 @@ def step (d : D) (line : String) : D × String :=
   let ws := words line
   if ws.head? == some "reset-tcp" then ({}, tcpScript ws)
   else if ws.head? == some "reset-burst" then ({}, burstObs ((kvNat ws "n").getD 0))
+  -- acceptor smoke cases: every accepted connection is handed over; closing a websocket session whose writer is stalled works
+  else if ws.head? == some "reset-accept" then ({}, s!"handed={(kvNat ws "n").getD 0},of={(kvNat ws "n").getD 0}")
+  else if ws.head? == some "reset-ws" then ({}, "close_returned=1,creates=1,closes=1,peer_end=1")
   else if ws.head? == some "arm" then
     -- the op is only recorded (the harness flushes its trace here); `go` runs it
     ({ d with armed := some (" ".intercalate (ws.drop 1)) }, "ok")
@@ -535,6 +538,17 @@ def specStep (sp : Sp) (line : String) : Sp × String :=
     if (obs.splitOn "panic").length > 1 || obs.startsWith "<no-observation" then (sp, "VIOLATION C05/crash " ++ op ++ " -> " ++ obs) else
     if ws.head? == some "reset-tcp" then ({}, if obs == "bad-op" then "ok" else specTcp ws obs) else
     if ws.head? == some "reset-burst" then ({}, if obs == "bad-op" then "ok" else specBurst ws obs) else
+    if ws.head? == some "reset-accept" then
+      let fs := obs.splitOn ","
+      ({}, if obs == "bad-op" || kvNat fs "handed" == kvNat ws "n" then "ok"
+           else s!"VIOLATION C05/accepted-connection-dropped {(kvNat ws "n").getD 0} clients connected while nobody consumed the acceptor's channel; then: {obs} (an accepted connection must reach a session or be closed)") else
+    if ws.head? == some "reset-ws" then
+      let fs := obs.splitOn ","
+      ({}, if kv fs "close_returned" != some "1" then s!"VIOLATION C05/no-session-remove websocket session with a stalled writer: Close did not return: {obs}"
+           else if kv fs "creates" != some "1" then s!"VIOLATION C05/session-add-missing-or-twice websocket session: {obs}"
+           else if kv fs "closes" != some "1" then s!"VIOLATION C05/no-session-remove websocket session with a stalled writer: {obs}"
+           else if kv fs "peer_end" != some "1" then s!"VIOLATION C05/socket-not-closed websocket session with a stalled writer: {obs}"
+           else "ok") else
     if ws.head? == some "arm" then ({ sp with armed := some (" ".intercalate (ws.drop 1)) }, "ok") else
     -- `go` is judged as the op it runs
     let isGo := ws.head? == some "go" || (ws.head?.getD "").startsWith "<harness-exit"
